@@ -220,18 +220,18 @@ CHECKS.update({
         technique="Coq proof (round trip by induction on class nesting and type) + model composition evaluated on the cases + metamorphic round trips",
         design_ref="DESIGN.md §4 C05"),
     "C07": dict(
-        text="Coq theorem C07_object_free_output_validates: for every universe, options and well-typed value of an object-free type "
-             "(primitives, List, Tuple, Dict[str, X], Literal, Enum, unions with disjoint JSON classes), the serialization "
-             "specification produces JSON that validates, under standard semantics, against the schema the builder model generates "
-             "for the type - the composition of the C05 round-trip theorem with the C06 agreement theorem; the run checks on every "
-             "object-free case within its (executable) hypotheses that serialization_schema is structurally that model schema and "
-             "re-evaluates the conclusion. Partial: for classes (required / skippable fields, serialized methods, exclude_* "
-             "settings) the serialization schema builder is not modelled: every serialize output is validated with jsonschema "
-             "against serialization_schema generated under the same global settings, on the C04 universes and well-typed, "
-             "constraint-satisfying values, and the Coq validator model jvalid is compared with jsonschema on the same pairs; "
-             "C07_union_schema_accepts_each_alternative for merged union schemas.",
+        text="Coq: a model of SerializationSchemaBuilder (Schema/BuildSer.v: properties = fields and serialized methods in order(), "
+             "required = what the serializer cannot skip, filtered dependentRequired, reference counting through method return "
+             "types), compared structurally with serialization_schema on every generated case. Theorems: "
+             "C07_object_free_output_validates (round trip composed with the C06 agreement) and C07_output_validates_with_classes: "
+             "for dataclasses / NamedTuples of the round-trip fragment nested to any depth, given inline or through $ref + $defs, the serialization "
+             "specification produces JSON that validates against the schema and definitions of that model (instance of the image "
+             "invariant theorem, Ser/ImageInv.v); executable hypotheses counted on the cases. Partial: classes with skip options, "
+             "exclude_* settings or serialized methods are covered by the oracle only: every serialize output "
+             "is validated with jsonschema against serialization_schema generated under the same global settings, and the Coq "
+             "validator model jvalid is compared with jsonschema on the same pairs.",
         note=SCHEMA_NOTE + " The oracle for validity is jsonschema (Draft 2020-12).",
-        technique="Coq proof on the object-free fragment (round trip + schema agreement) + jsonschema-oracle correspondence for classes",
+        technique="Coq proof (image invariant instantiated with validity against the modelled serialization schema) + structural correspondence of the builder model + jsonschema oracle",
         design_ref="DESIGN.md §4 C07"),
     "C11": dict(
         text="Coq model of the external name (alias metadata, class aliaser with override=False exemptions, dynamic aliaser; "
